@@ -481,3 +481,6 @@ _add('C07', 'Totality (c07_generators_return): on valid arguments (operands are 
 _add('C09', 'Totality (c09_generators_return): on valid arguments every generator of this property returns (or the label space is exhausted); '
      'caller-given result labels must not be gates and be pairwise different, and for add_pairwise_if_then_else must not be labels the '
      'generator draws later (necessary: ca_pairIte_collision is the failing run).')
+_add('C08', 'Totality (c08_generators_return): on operands of width >= 1 that are gates of the host circuit every multiplier and squarer '
+     '(DEFAULT, ALTER, 2^k-1, both Karatsuba variants, Dadda, Wallace, both squarers) returns — recursion and round fuels suffice, no column '
+     'that is read is empty — or the 128-bit label space is exhausted.')
